@@ -326,6 +326,8 @@ func unwrapIface(v ssa.Value) ssa.Value {
 			v = x.X
 		case *ssa.ChangeType:
 			v = x.X
+		case *ssa.ChangeInterface:
+			v = x.X
 		default:
 			return v
 		}
